@@ -91,12 +91,60 @@ Definition elim_ok_b (c : circ) : bool :=
 (* substitute: the instance is a listed cell, the implementation is a consistent circuit whose interface nodes are
    listed, and the asserts / dictionary lookups of the code succeed (pin counts fit, generated names are fresh,
    every connected instance pin finds its node). *)
+(* shape of an implementation (decided on the implementation alone): no port is listed twice; ports are forks (as produced by
+   the bench parser: `input(A) output(Y)` declare forks); the designated cell -- the first non-fork driver behind the first
+   output, whose kind the instance node takes over -- is not itself a port; the driver of a line into a pure output port (a port
+   that is not read inside the implementation) is not a fork. *)
+Fixpoint nodupb (l : list nat) : bool := match l with [] => true | x :: r => negb (mem x r) && nodupb r end.
+Definition io_forks_b (impl : circ) : bool :=
+  forallb (fun e => match e with Some n => is_fork (kind_of impl n) | None => false end) (io impl).
+Definition impl_desig (impl : circ) : option (option nat) :=
+  match all_somes (io impl) with
+  | None => None
+  | Some ios =>
+      match map (fun n => nth 0 (ins_of impl n) None) (filter (fun n => 0 <? List.length (ins_of impl n)) ios) with
+      | [] => Some None
+      | None :: _ => None
+      | Some l0 :: _ => match l_drv (lst impl l0) with
+                        | Some d => option_map Some (find_designated (S (nnext impl)) impl d)
+                        | None => None end
+      end
+  end.
+Definition out_drivers_b (impl : circ) : bool :=
+  forallb (fun l => match l_rdr (lst impl l), l_drv (lst impl l) with
+                    | Some r, Some d => negb (in_ios impl r && (List.length (outs_of impl r) =? 0) && is_fork (kind_of impl d))
+                    | _, _ => true end) (lines impl).
+Definition subst_shape_b (impl : circ) : bool :=
+  nodupb (somes (io impl)) && io_forks_b impl &&
+  match impl_desig impl with Some (Some dc) => negb (in_ios impl dc) | _ => true end &&
+  out_drivers_b impl.
+
 Definition subst_pre_b (c : circ) (n : nat) (impl : circ) : bool :=
-  mem n (nodes c) && negb (is_fork (kind_of c n)) && negb (io_mem c n) && cinv_b impl && io_ok_b impl &&
+  mem n (nodes c) && negb (is_fork (kind_of c n)) && negb (io_mem c n) && cinv_b impl && io_ok_b impl && subst_shape_b impl &&
   match substitute c n impl with Some _ => true | None => false end.
+(* resolve_tlib_cells: every library implementation is consistent, and every LIVE instance of a library kind that the loop over
+   the node snapshot visits satisfies, in the state in which it is visited, the conditions of substitute that concern the instance
+   and the call: it is a cell, it is not a port, the implementation has the shape [subst_shape_b], the call does not raise.
+   (That a live snapshot node is still listed is not assumed: it follows, Proofs/CircuitResolve.v.  Instances that an earlier
+   clean-up removed are skipped by the code and need no condition.) *)
+Definition subst_visit_b (c : circ) (n : nat) (impl : circ) : bool :=
+  negb (is_fork (kind_of c n)) && negb (io_mem c n) && subst_shape_b impl &&
+  match substitute c n impl with Some _ => true | None => false end.
+Fixpoint resolve_pre_from (t : list (string * circ)) (ns : list nat) (c : circ) : bool :=
+  match ns with
+  | [] => true
+  | n :: r => if n_alive (nst c n) then
+                match tlib_get (kind_of c n) t with
+                | None => resolve_pre_from t r c
+                | Some impl => subst_visit_b c n impl &&
+                               match substitute c n impl with Some c' => resolve_pre_from t r c' | None => false end
+                end
+              else resolve_pre_from t r c
+  end.
 Definition resolve_pre_b (c : circ) (t : list (string * circ)) : bool :=
   forallb (fun kv => cinv_b (snd kv) && io_ok_b (snd kv)) t &&
-  match resolve_tlib c t with Some _ => true | None => false end.
+  match resolve_tlib c t with Some _ => true | None => false end &&
+  resolve_pre_from t (nodes c) c.
 
 Definition pre (c : circ) (o : op) : bool :=
   match o with
